@@ -2,7 +2,10 @@
    oracle of C19.  Everything the OCaml runner of this property executes goes
    through run_case.
 
-   kind "pll.history":
+   kinds "pll.history" (general histories), "pll.large" (large-but-legal inputs:
+   offsets of hours, gaps of 1 ns and of days, slews at the clamp; judged like
+   pll.history) and "pll.longgap" (additionally: every Adjust duration > 0,
+   without the 2^32 s bound -- the known finding):
      args  = six integers per update, flat:
              now_ns epoch offset_ns weight_bits dt_bits pow_bits
              (dt_bits/pow_bits: the harness' own dt = now.Sub(previous
@@ -81,7 +84,7 @@ Fixpoint queries_ok (qs : list (option f64)) (us : list (upd * Z)) : bool :=
   end.
 
 Definition glue_C19 (k : string) (a o : list value) : option verdict :=
-  if is k "pll.history" then
+  if is k "pll.history" || is k "pll.large" then
     match parse_updates (S (length a)) a with
     | None => None
     | Some uds =>
